@@ -1,5 +1,6 @@
 import PsiModel.Epochs
 import PsiProofs.Helper.C18_Epochs
+import PsiProofs.Helper.C18_Runs
 /-! C18 — property theorems for the boolean-epoch utilities. -/
 namespace Psi.Epochs
 
@@ -28,5 +29,63 @@ theorem epochs_eq_runs : ∀ x : List Bool, epochs x = .ok (maximalRuns x) := by
     · simp [maximalRuns, runsAux, hz.2]
 
 example : epochs [true, true, false, true] = .ok [(0, 2), (3, 4)] := rfl
+
+/-! ### What `maximalRuns` is, declaratively -/
+
+/-- every returned pair is a maximal run: `s < e ≤ len`, all samples in `[s, e)` high,
+the sample before `s` low (or `s = 0`), the sample at `e` low (or `e = len`). -/
+theorem maximalRuns_sound : ∀ (x : List Bool) (p : Nat × Nat),
+    p ∈ maximalRuns x → IsMaximalRun x p.1 p.2 := by
+  intro x p hp
+  exact runsAux_sound x x 0 none rfl (Nat.zero_le _) (Or.inl rfl) p hp
+
+/-- the output is sorted and disjoint, consecutive runs separated by at least one sample. -/
+theorem maximalRuns_sorted : ∀ x : List Bool,
+    (maximalRuns x).Pairwise (fun p q => p.2 < q.1) :=
+  fun x => (runsAux_sorted x 0).1
+
+/-- every high sample lies in a returned run. -/
+theorem maximalRuns_complete : ∀ (x : List Bool) (i : Nat), x[i]? = some true →
+    ∃ p ∈ maximalRuns x, p.1 ≤ i ∧ i < p.2 := by
+  intro x i hi
+  simpa [maximalRuns] using (runsAux_complete x 0).1 i hi
+
+/-- membership in `maximalRuns x` is exactly "is a maximal run of `x`". -/
+theorem maximalRuns_mem_iff : ∀ (x : List Bool) (s e : Nat),
+    (s, e) ∈ maximalRuns x ↔ IsMaximalRun x s e := by
+  intro x s e
+  constructor
+  · exact maximalRuns_sound x (s, e)
+  · intro ⟨h1, h2, h3, h4, h5⟩
+    obtain ⟨⟨s', e'⟩, hp, hs1, hs2⟩ := maximalRuns_complete x s (h3 s (Nat.le_refl _) h1)
+    obtain ⟨g1, g2, g3, g4, g5⟩ := maximalRuns_sound x _ hp
+    simp only at hs1 hs2 g1 g2 g3 g4 g5
+    have es : s' = s := by
+      by_cases hlt : s' < s
+      · have := g3 (s - 1) (by omega) (by omega)
+        rcases h4 with h4 | h4
+        · omega
+        · rw [this] at h4; simp at h4
+      · omega
+    subst es
+    have ee : e' = e := by
+      rcases Nat.lt_trichotomy e' e with hlt | heq | hgt
+      · have := h3 e' (by omega) hlt
+        rcases g5 with g5 | g5
+        · omega
+        · rw [this] at g5; simp at g5
+      · exact heq
+      · have := g3 e (by omega) hgt
+        rcases h5 with h5 | h5
+        · omega
+        · rw [this] at h5; simp at h5
+    subst ee
+    exact hp
+
+example : IsMaximalRun [false, true, true, false] 1 3 := by
+  refine ⟨by decide, by decide, ?_, Or.inr rfl, Or.inr rfl⟩
+  intro i h1 h2
+  have : i = 1 ∨ i = 2 := by omega
+  rcases this with h | h <;> subst h <;> rfl
 
 end Psi.Epochs
